@@ -108,6 +108,15 @@ func genC02(g *genCtx) {
 		d := pool[r.intn(len(pool))]
 		g.add(&Case{Kind: "sel", Doc: d, Ctx: pickNodeCtx(r, d), Expr: genFilteredPath(r, r.intn(3))})
 	}
+	// predicates whose first operand walks the context node away: the second operand belongs to the same candidate
+	for i := 0; i < g.scale(3000, 30000); i++ {
+		d := pool[r.intn(len(pool))]
+		m, p := genMovingPath(r), genFlatPath(r)
+		pr := r.pick([]string{"count(" + m + ") " + r.pick(cmpOps) + " count(" + p + ")", "count(" + p + ") " + r.pick(cmpOps) + " count(" + m + ")",
+			"count(" + m + ") + count(" + p + ") " + r.pick(cmpOps) + " " + r.pick([]string{"1", "2", "3"}), "contains(concat(" + m + ", '|', " + p + "), '|1')",
+			"not(" + m + ") or " + p, m + " and count(" + p + ") > 0", "starts-with(concat(" + m + ", " + p + "), '1')"})
+		g.add(&Case{Kind: "sel", Doc: d, Ctx: pickNodeCtx(r, d), Expr: r.pick([]string{"//*", "*", "//a", "descendant::*"}) + "[" + pr + "]"})
+	}
 	// state-leak stress: every ordered pair of axes as an existence predicate, both joints, on documents
 	// made of few names and repeated similar subtrees, so that a candidate which abandons a traversal
 	// half-way is followed by candidates that have to start theirs afresh
@@ -345,6 +354,34 @@ func genOperand(r *rng) string {
 	}
 }
 
+// genMovingPath: a relative path from the context node whose evaluation walks the evaluation's context node away
+// from it (predicates put it on every candidate, positional steps on every parent, following::/preceding:: on the
+// subtrees they visit); single origin and forward, so that sequence and ordered set agree.  Whatever is evaluated
+// after it — the other operand, a later argument — must still see the context node it started with.
+func genMovingPath(r *rng) string {
+	t := func() string { return r.pick([]string{"a", "b", "c", "*", "node()", "text()"}) }
+	switch r.intn(9) {
+	case 0:
+		return t() + "[" + r.pick([]string{"@k", "@*", "*", "a", "b", "text()", "not(*)", ". = '1'", "@k = '1'", "not(@k)"}) + "]"
+	case 1:
+		return t() + "[" + r.pick(posPreds) + "]"
+	case 2:
+		return t() + "[" + genBoolPred(r, 0) + "]"
+	case 3:
+		return "following::" + t()
+	case 4:
+		return "*[1]/following::" + t()
+	case 5:
+		return t() + "[" + r.pick(posPreds) + "][" + r.pick([]string{"@k", "*", "true()"}) + "]"
+	case 6:
+		return t() + "[@k]/@k"
+	case 7:
+		return "*[" + r.pick([]string{"a", "b", "@k"}) + "]/" + t()
+	default:
+		return "(" + t() + "[" + r.pick([]string{"@k", "*"}) + "])[1]"
+	}
+}
+
 // genCmpExpr: C07 fragment
 func genCmpExpr(r *rng) string {
 	numExpr := func() string { return r.pick(append(numLits, "1 + 1", "0 div 0", "1 div 0", "-2", "count(*)")) }
@@ -431,6 +468,35 @@ func genC07(g *genCtx) {
 		{"0.000000000000000000000000000000000000000000000000000000000000000000000000000000000000000000000000000000000000000000000000000000000000000000000000000000000000000000000000000000000000000000000000000000000000000000000000000000000000000000000000000000000000000000000000000000000000000000000000000000000000000000000000000000000005", "0"}}
 	dn := Doc{{Depth: 0, Kind: 'r'}, {Depth: 1, Kind: 'e', Name: "r"}, {Depth: 2, Kind: 'e', Name: "v", Attrs: []Attr{{Name: "k", Val: "0.30000000000000004"}}}, {Depth: 3, Kind: 't', Data: "0.30000000000000004"},
 		{Depth: 2, Kind: 'e', Name: "w", Attrs: []Attr{{Name: "k", Val: "1.0000000000000002"}}}, {Depth: 3, Kind: 't', Data: "0.3"}}
+	// operands that walk the context node away before the other operand is evaluated
+	for i := 0; i < g.scale(4000, 40000); i++ {
+		d := pool[r.intn(len(pool))]
+		m, p := genMovingPath(r), genFlatPath(r)
+		var e string
+		switch r.intn(8) {
+		case 0:
+			e = m + " " + r.pick([]string{"=", "!="}) + " " + p
+		case 1:
+			e = p + " " + r.pick([]string{"=", "!="}) + " " + m
+		case 2:
+			e = "count(" + m + ") " + r.pick(cmpOps) + " count(" + p + ")"
+		case 3:
+			e = "(" + m + " = " + r.pick(strLits) + ") " + r.pick([]string{"=", "!="}) + " (count(" + p + ") " + r.pick(cmpOps) + " 1)"
+		case 4:
+			e = m + " " + r.pick([]string{"=", "!="}) + " " + genMovingPath(r)
+		case 5:
+			e = "boolean(" + m + ") " + r.pick([]string{"=", "!="}) + " boolean(" + p + ")"
+		case 6:
+			e = "string(" + m + ") " + r.pick([]string{"=", "!="}) + " string(" + p + ")"
+		default:
+			e = m + " " + r.pick(cmpOps) + " count(" + p + ")"
+		}
+		if r.chance(1, 4) {
+			g.add(&Case{Kind: "sel", Doc: d, Ctx: pickNodeCtx(r, d), Expr: "//*[" + e + "]"})
+		} else {
+			g.add(&Case{Kind: "eval", Doc: d, Ctx: pickNodeCtx(r, d), Expr: e})
+		}
+	}
 	for _, pr := range near {
 		for _, op := range cmpOps {
 			g.add(&Case{Kind: "eval", Doc: dn, Ctx: Ref{0, -1}, Expr: pr[0] + " " + op + " " + pr[1]})
@@ -534,6 +600,19 @@ func genC08(g *genCtx) {
 		e := genNumExpr(r, r.intn(4))
 		if r.chance(1, 4) {
 			e = "string(" + e + ")"
+		}
+		g.add(&Case{Kind: "eval", Doc: d, Ctx: pickNodeCtx(r, d), Expr: e})
+	}
+	// arithmetic whose first operand walks the context node away (count/sum/string-length/number of a filtered,
+	// positional or following:: path): the second operand is evaluated at the same context node
+	for i := 0; i < g.scale(3000, 30000); i++ {
+		d := pool[r.intn(len(pool))]
+		m, p := genMovingPath(r), genFlatPath(r)
+		f1 := r.pick([]string{"count(" + m + ")", "string-length(" + m + ")", "number(" + m + ")", "count(" + m + ") * 2", "sum(" + m + "/@k)"})
+		f2 := r.pick([]string{"count(" + p + ")", "string-length(" + p + ")", "number(" + p + ")", "count(" + genMovingPath(r) + ")"})
+		e := f1 + " " + r.pick([]string{"+", "-", "*", "div"}) + " " + f2
+		if r.chance(1, 3) {
+			e = f2 + " " + r.pick([]string{"+", "-", "*"}) + " " + f1 + " + " + f2
 		}
 		g.add(&Case{Kind: "eval", Doc: d, Ctx: pickNodeCtx(r, d), Expr: e})
 	}
@@ -651,6 +730,17 @@ func genC09(g *genCtx) {
 	for i := 0; i < g.scale(30000, 300000); i++ {
 		d := pool[r.intn(len(pool))]
 		g.add(&Case{Kind: "eval", Doc: d, Ctx: pickNodeCtx(r, d), Expr: genStrExpr(r, r.intn(4))})
+	}
+	// an earlier argument that walks the context node away (a filtered, positional or following:: path): the later
+	// arguments are evaluated at the same context node
+	for i := 0; i < g.scale(3000, 30000); i++ {
+		d := pool[r.intn(len(pool))]
+		m, p := genMovingPath(r), genFlatPath(r)
+		e := r.pick([]string{"concat(" + m + ", '|', " + p + ")", "concat(" + m + ", " + p + ", " + genMovingPath(r) + ", " + p + ")", "translate(" + m + ", 'a', string(" + p + "))",
+			"substring('abcdef', count(" + m + "), count(" + p + "))", "substring-before(concat(" + m + ", '-', " + p + "), '-')", "substring-after(concat(" + m + ", '-', " + p + "), '-')",
+			"contains(concat(" + m + ", '|', " + p + "), '|a')", "starts-with(concat(" + m + ", " + p + "), string(" + p + "))", "string-join(" + m + " | " + p + ", string(" + p + "))",
+			"normalize-space(concat(" + m + ", ' ', " + p + "))", "string-length(concat(" + m + ", " + p + "))", "lower-case(concat(" + m + ", " + p + "))"})
+		g.add(&Case{Kind: "eval", Doc: d, Ctx: pickNodeCtx(r, d), Expr: e})
 	}
 	// a string function that is abandoned half-way (a later argument raises the package's argument-type error) must
 	// leave nothing behind for the next evaluation (pooled buffers, memoised arguments)
